@@ -4,8 +4,10 @@ Flow of one run (everything is re-derived from $VERIF_REPO):
   1. build the hand-written, source-independent part coq/theories/C28 (Model.v: how the pieces plug together; Spec.v: the
      property as a boolean oracle over the implementation's observables; Lemmas.v: generic lemmas);
   2. build (overlay, tag verif) and run the go/ast TRANSLATOR harness/C28/cmd/translate: it reads confd's
-     clusterRoutePolicyFromBGPConfig / programsPool / processIPPool, Felix's ProgramClusterRoutes parameter + accessors,
-     the EncapsulationCalculator, the wiring in daemon.go / driver.go, the conditions under which int_dataplane.go creates
+     clusterRoutePolicyFromBGPConfig / programsPool / processIPPool (+ the conditions under which processIPPools produces a
+     pool's kernel statement), Felix's ProgramClusterRoutes parameter + accessors, the EncapsulationCalculator (both entry
+     points handleModelPool / handleAPIPool: every condition - enclosing `if`s AND earlier `if c { return }` / switch-with-return
+     statements - under which updatePool is reached, over the pool's attributes), the wiring in daemon.go / driver.go, the conditions under which int_dataplane.go creates
      the route-programming managers, ipip_mgr.go's gates, calc_graph.go's L3 route resolver condition and the tables of
      design/cluster-route-programming/DESIGN.md, and prints Gen.v.  It REFUSES source it does not recognise;
   3. re-check coq/gen/C28/Props.v (the theorems) against the regenerated Gen.v;
@@ -36,6 +38,9 @@ ASSUMPTIONS = [
     "FelixConfiguration overrides IpInIpEnabled / VXLANEnabled (deprecated) are unset",
     "IPv6 pools: Felix's IPv6 support is enabled; IPIP pools are IPv4 (validation rejects others)",
     "a pool has at most one of ipipMode / vxlanMode set (validation)",
+    "pool attributes considered: disabled, natOutgoing, disableBGPExport (any other attribute consulted on the path to updatePool / to the "
+    "kernel-filter statement makes the translator refuse); a fresh EncapsulationCalculator handles the pool once; type assertions in "
+    "handleModelPool / handleAPIPool succeed (handlePool dispatches on the dynamic type); JSON decoding / datastore reads in confd succeed",
     "confd can read the local node's subnet (otherwise processIPPools emits no IPv4 kernel filter statements at all)",
     "the value reaches Felix through Config.UpdateFrom and confd through the default BGPConfiguration",
     "domain of the all-strings theorem: a raw value is absent, one of the four documented values, or a string neither "
@@ -44,7 +49,10 @@ ASSUMPTIONS = [
 RULE = ("complete enumeration: Felix raw value in {absent, 4 values, empty, 4 unrecognised strings (1 random per seed; thorough tier 13), 2 case variants (thorough 5), "
         "none/NONE (thorough: +None/nOnE)} x BGPConfiguration in {no default resource, field unset, the same strings} x pool mode in {VXLAN, "
         "VXLAN-CrossSubnet, IPIP, IPIP-CrossSubnet, none} (IPv4) + {VXLAN, VXLAN-CrossSubnet, none} (IPv6); non-trivial = the pair "
-        "resolves (absent/unrecognised -> default) to one of the four supported pairings; distinct by the whole input")
+        "resolves (absent/unrecognised -> default) to one of the four supported pairings; distinct by the whole input; "
+        "second stream: default pair + the four supported pairings x every pool mode/family x pool attributes that must not matter "
+        "(disabled, natOutgoing, disableBGPExport singly and together, plus a nodeSelector) x Felix path (syncer: model.IPPool through "
+        "handleModelPool; start-up: v3 IPPool through handleAPIPool)")
 
 
 def classify(c):
@@ -158,7 +166,7 @@ def run(ctx):
     else:
         # no generated model: still look for a concrete failing input with the specification oracle alone
         imports, checker, q = ["From Verif.C28 Require Import Model Spec."], "(fun c => (true, ok_case c))", ()
-    failing, _ = vlib.coq_eval_cases(ctx, imports + defs, checker, [c["coq"] for c in cases], shard=260, extra_q=q, par=14)
+    failing, _ = vlib.coq_eval_cases(ctx, imports + defs, checker, [c["coq"] for c in cases], shard=340, extra_q=q, par=14)
     ctx.log("cases: %d, failing: %d" % (len(cases), len(failing)))
 
     keys, nontrivial = set(), set()
